@@ -591,6 +591,9 @@ func init() {
 	reg(&propDef{id: "C03", level: "exploration", crashIsViol: true,
 		batches: []batch{{name: "buffer", quick: 3000, thorough: 120000}},
 		rule:    "each evaluation drives a real trzszBuffer with a producer task (addBuffer in a chosen segmentation, optional 1 ms pauses on the fake clock) and a consumer task issuing a tape-chosen sequence of strict line reads, junk-tolerant line reads and sized binary reads (or clean Windows-framed reads), under seeded schedules; streams of up to 12 bytes over {a,b,#,:,9,LF,CR,Ctrl-C} are run under ALL 2^(n-1) segmentations inside the same evaluation, longer streams (20-620 bytes, structured or random) under four random segmentations of increasing density; oracle: a 40-line reference parser applied to the concatenated stream (same values, same order, nothing lost/duplicated/merged, Ctrl-C interrupts) and promptness (after a pause during which the world went quiet, every read whose answer was complete has returned); non-trivial = at least one complete answer compared; distinct = distinct (class, schedule-trace hash, tape hash)"})
+	reg(&propDef{id: "C20", level: "exploration", crashIsViol: true,
+		batches: []batch{{name: "progress", quick: 4000, thorough: 150000}},
+		rule:    "each evaluation drives a real textProgressBar with two concurrent tasks under seeded schedules on the fake clock: a stepper (1-3 files; names of every width class: ASCII, CJK, emoji, combining marks, control characters, RTL, empty, 300 columns long; sizes 0, small, GiB range, 2^62, negative; step sequences with repeats, regressions, overshoot and 2^62; clock gaps 0, 1 ms, 199/200/201 ms, 3 s, 5 h) and a resizer/pauser (setTerminalColumns to 1-500, setPause on/off); initial widths 1-500, optional tmux pane width, optional tmux %output framing, optional colour pair; oracle on every write of the bar: display width (control sequences removed, tmux framing undone, runewidth's cluster-aware measure) <= largest width in force since the previous line, for widths >= 5; every percentage within 0..100 and non-decreasing within a file; a panic anywhere crashes the worker and is attributed to the run; non-trivial = at least one line measured; distinct = distinct (width class + modes, schedule-trace hash, tape hash)"})
 	reg(&propDef{id: "C05", level: "exploration", crashIsViol: true,
 		batches: []batch{{name: "transparency", quick: 2000, thorough: 80000}},
 		rule:    "each evaluation is one real filter (option sets drag x tracelog x zmodem x OSC52) after a history of 0-3 real transfers (ended by success, user stop through the prompt, or SIGINT at the server), fed 3-14 probe chunks in both directions: random binary, VT100 sequences, truncated/corrupted trigger look-alikes, zmodem-like and OSC52-like fragments (including vetoed zmodem headers and genuine OSC52), scroll-back of finished transfers, control keys, path-like input naming files that do not exist, existing paths not in the dragged-path shape, bracketed paste; any segmentation and coalescing; oracle: bytes at the terminal == bytes the shell wrote and bytes at the server side == bytes typed, exactly, and no transfer starts; non-trivial = probe bytes compared; distinct = distinct (options + history + probe kinds, schedule-trace hash, tape hash)"})
@@ -880,7 +883,7 @@ func main() {
 		die(2, "mktemp: %v", err)
 	}
 	defer os.RemoveAll(scratch)
-	pl := &pool{bin: bin, workers: *workers, chunk: 25, scratch: scratch, memKB: 16 << 20, jobWall: 240 * time.Second}
+	pl := &pool{bin: bin, workers: *workers, chunk: 25, scratch: scratch, memKB: 8 << 20, jobWall: 90 * time.Second}
 
 	if cmdName == "selftest-determinism" {
 		selftestDeterminism(pl, *seed, *runs)
@@ -1078,6 +1081,14 @@ func main() {
 		for _, r := range crashes {
 			addViol(r)
 		}
+		// a run that makes no progress for the whole wall-clock watchdog (endless loop, allocation
+		// storm) is a failure of the code under test for these properties, not of the framework
+		for _, r := range stuck {
+			r.Kind = "stuck"
+			r.Sig = "stuck:no-progress-for-" + pl.jobWall.String()
+			addViol(r)
+		}
+		stuck = nil
 	}
 	exit := 0
 	var vioLines []string
